@@ -28,7 +28,7 @@ TIMEOUT = {"quick": 400, "thorough": 2400}
 
 def cases(tier, seed):
     n = 12 if tier == "quick" else 160
-    cs = workload.reader_population(n, seed + 2000, payloads=("random",), max_levels=3, max_fields=3)
+    cs = workload.reader_population(n, seed + 2000, payloads=("random", "special"), max_levels=3, max_fields=3)
     out = []
     K = 4
     for i, c in enumerate(cs):
